@@ -805,6 +805,7 @@ pub fn sweep_bases() -> Vec<Plan> {
                     chunk_caps: Vec::new(),
                     header_before_error: false,
                     mime_only_first_chunk: false,
+                    embedded_vanishes_at: None,
                 }];
                 bases.push(p);
             }
@@ -1039,8 +1040,27 @@ fn gen_c17(rng: &mut Rng) -> Plan {
             chunk_caps: Vec::new(),
             header_before_error: false,
             mime_only_first_chunk: false,
+            embedded_vanishes_at: None,
         });
         plan.callers.push(vec![Op::AlbumArt { uri }]);
+    }
+    // rarely the embedded picture disappears while it is being read (the file was retagged):
+    // a later `readpicture` answers with a bare `OK`. Whatever the client makes of that — absence,
+    // an error, the complete cover file — it must not hand out bytes stitched together from two
+    // pictures. Only where the transfer needs more than one chunk and no error is forced.
+    if rng.chance(1, 12) {
+        let limit = plan.binary_limit.max(1) as u64;
+        for pic in plan.pictures.iter_mut() {
+            let multi = pic.embedded.as_ref().map(|e| e.data.len() as u64 > limit).unwrap_or(false);
+            if multi
+                && !pic.readpicture_unknown
+                && pic.readpicture_error.is_none()
+                && pic.later_error.is_none()
+                && pic.chunk_caps.is_empty()
+            {
+                pic.embedded_vanishes_at = Some(*rng.pick(&[1u64, limit, limit + 1, 2 * limit]));
+            }
+        }
     }
     // nobody listens for notifications (`let (client, _) = connect(..)`, which the documentation
     // allows): loading pictures must work all the same
@@ -1094,6 +1114,9 @@ impl Check for C17 {
             }
             if oracle::art_uses_fallback(pic) {
                 ctx.counters.bump("art.fallback");
+            }
+            if pic.embedded_vanishes_at.is_some() {
+                ctx.counters.bump("art.embedded_vanishes_mid_transfer");
             }
         }
         bump_probes(ctx, &plan, &out);
